@@ -76,11 +76,10 @@ class LexicaseSelection(GeneticStep):
         candidates = list(population)
         evaluator.evaluate(problem, candidates)
         n_cases = problem.number_of_objectives()
-        cases = random.shuffle(list(range(n_cases)))
-
         assert isinstance(problem.minimize, list)
-        
+
         for _ in range(target_size):
+            cases = random.shuffle(list(range(n_cases)))
             candidates_to_check = candidates.copy()
 
             while len(candidates_to_check) > 1 and cases:
